@@ -764,6 +764,12 @@ LayerAfterUnwind(f) ==
                           THEN (IF glob[n] # f.g0[n] THEN glob[n] ELSE f.l0[n])
                           ELSE envs[Top][n]]
 
+\* the global definitions at the moment of a macro call / a slot call: what was defined DURING the call is published
+\* to the caller afterwards (a caller's local that merely shares its name with an earlier global is left alone)
+CGlob(i) == <<"glob", i, 0>>
+\* after a macro call (and after a slot filler) the globals defined during the call are published to the caller
+WithGlobals(layer, g0) == [n \in Names |-> IF glob[n] # Undef /\ glob[n] # g0[n] THEN glob[n] ELSE layer[n]]
+
 Unwind ==
   /\ res = "run" /\ exc # NoExc /\ Len(ctl) > 0
   /\ IF F.oe /\ exc.c \notin BaseOnly
@@ -774,7 +780,8 @@ Unwind ==
           /\ out' = SubSeq(out, 1, cells[CFb(F.i)].n)
           /\ ctl' = SetF([F EXCEPT !.st = "fb", !.j = 1, !.oe = FALSE, !.rec = TRUE])
           /\ exc' = NoExc
-          /\ mx' = [mx EXCEPT !.tr = SubSeq(mx.tr, 1, F.trd)]   \* abandoned translation streams
+          \* abandoned translation streams; the translation settings of the failed subtree end with it
+          /\ mx' = [mx EXCEPT !.tr = SubSeq(mx.tr, 1, F.trd), !.i18n = F.ib]
           /\ UNCHANGED res
      ELSE IF Len(ctl) = 1
      THEN /\ res' = "fail" /\ ctl' = <<>>
@@ -783,7 +790,10 @@ Unwind ==
           /\ IF F.kind \in {"macro", "fill", "tmpl"}
              THEN \* the function returns abnormally: its copy of the scope is gone;
                   \* every macro function records its call site (C12)
-                  /\ envs' = SubSeq(envs, 1, Top - 1)
+                  \* (what it defined globally so far is published to the caller all the same)
+                  /\ envs' = [SubSeq(envs, 1, Top - 1) EXCEPT ![Top - 1] =
+                                  IF CGlob(ctl[Len(ctl) - 1].i) \in DOMAIN cells
+                                  THEN WithGlobals(envs[Top - 1], cells[CGlob(ctl[Len(ctl) - 1].i)].g) ELSE envs[Top - 1]]
                   /\ mx' = [mx EXCEPT !.senv = SubSeq(mx.senv, 1, Len(mx.senv) - 1)]
                   /\ exc' = IF F.kind = "fill" THEN exc
                             ELSE [exc EXCEPT !.sites = Append(exc.sites, Site(ctl[Len(ctl) - 1].i, "use", 0))]
@@ -873,9 +883,6 @@ CallMacro(E, H, SE, whole, lib) ==
   IN /\ ctl' = Append(ctl, fr)
      /\ mx' = [mx EXCEPT !.heap = p.h, !.senv = SE2, !.acts = Append(mx.acts, [sv |-> p.sv, tok |-> NoSite])]
 
-\* the global definitions at the moment of a macro call / a slot call: what was defined DURING the call is published
-\* to the caller afterwards (a caller's local that merely shares its name with an earlier global is left alone)
-CGlob(i) == <<"glob", i, 0>>
 
 SIMacro ==  \* visit_UseInternalMacro: the define-macro element in the normal flow
   /\ Running /\ F.st = "imacro" /\ F.kind # "macro"
@@ -919,8 +926,6 @@ SUse ==     \* visit_UseExternalMacro (+ the Define of `macroname` around it)
         /\ envs' = Append(env1, env1[Len(env1)])
   /\ UNCHANGED <<pid, glob, rep, out, log, exc, res>>
 
-\* after a macro call (and after a slot filler) the globals defined during the call are published to the caller
-WithGlobals(layer, g0) == [n \in Names |-> IF glob[n] # Undef /\ glob[n] # g0[n] THEN glob[n] ELSE layer[n]]
 
 MReturn ==  \* the macro function returns
   /\ Running /\ F.kind \in {"macro", "tmpl"}
